@@ -3,10 +3,13 @@ import Wayfind.Proofs.Registry6
 
 /-! the reference-count invariant along histories, and the full outcome of `delete` -/
 
+/-- reference counts: the value of a template without groups is inline; every stored value of a template with groups
+holds a cell whose strong count is exactly the number of that template's routes holding it (all of them after an
+insert, one per route in a clone); routes of different templates never share a cell -/
 structure RcInv (r : Router) (L : List LiveT) : Prop where
   single : ∀ lt ∈ L, lt.exps.length ≤ 1 → ∀ e ∈ lt.exps, ∀ i, Node.find r.root e.2 = some i → i.cell = none
-  multi : ∀ lt ∈ L, lt.exps.length > 1 → ∃ k, k < r.next ∧ rcGet r.rc k = nkeys lt.exps ∧
-    ∀ e ∈ lt.exps, ∀ i, Node.find r.root e.2 = some i → i.cell = some k
+  multi : ∀ lt ∈ L, lt.exps.length > 1 → ∀ e ∈ lt.exps, ∀ i, Node.find r.root e.2 = some i →
+    ∃ k, i.cell = some k ∧ k < r.next ∧ rcGet r.rc k = cellKeys r.root k [] lt.exps
   sep : ∀ lt1 ∈ L, ∀ lt2 ∈ L, ∀ e1 ∈ lt1.exps, ∀ e2 ∈ lt2.exps, ∀ i1 i2 k,
     Node.find r.root e1.2 = some i1 → Node.find r.root e2.2 = some i2 → i1.cell = some k → i2.cell = some k →
     lt1.template = lt2.template
@@ -96,29 +99,36 @@ theorem RcInv.insert {r r' : Router} {L : List LiveT} {t : Bytes} {d : Nat} (hre
       | cons a rest => cases rest with
         | nil => rfl
         | cons b rest' => simp at hlen
-  · intro lt hlt hlen
+  · intro lt hlt hlen e he i hf
     rcases List.mem_append.1 hlt with hlt | hlt
-    · obtain ⟨k, hk, hrc, hcells⟩ := h.multi lt hlt hlen
-      refine ⟨k, by omega, by rw [hrcold k hk]; exact hrc, ?_⟩
-      intro e he i hf
-      rw [hold lt hlt e he] at hf; exact hcells e he i hf
+    · rw [hold lt hlt e he] at hf
+      obtain ⟨k, hc, hk, hrc⟩ := h.multi lt hlt hlen e he i hf
+      refine ⟨k, hc, by omega, ?_⟩
+      rw [hrcold k hk, hrc]
+      apply cellKeys_congr
+      intro y hy _
+      simp only [cellAt, hold lt hlt y hy]
     · simp only [List.mem_singleton] at hlt; subst hlt
-      simp only at hlen
-      refine ⟨r.next, by rw [(hbig hlen).1]; omega, by rw [(hbig hlen).2, rcGet_rcSet_same], ?_⟩
-      intro e he i hf
-      simp only at he
+      simp only at hlen he
       obtain ⟨e', hne'⟩ := hnew e he
       rw [hne'] at hf; injection hf with hf; subst hf
-      exact insInfo_cell_multi t d r.next ts e' hlen
+      refine ⟨r.next, insInfo_cell_multi t d r.next ts e' hlen, by rw [(hbig hlen).1]; omega, ?_⟩
+      rw [(hbig hlen).2, rcGet_rcSet_same]
+      simp only
+      rw [cellKeys_all _ r.next ts [] (by
+        intro y hy _
+        obtain ⟨y', hy'⟩ := hnew y hy
+        rw [cellAt_of_find hy']
+        exact insInfo_cell_multi t d r.next ts y' hlen)]
+      rfl
   · intro lt1 hlt1 lt2 hlt2 e1 he1 e2 he2 i1 i2 k hf1 hf2 hc1 hc2
     -- cells of old templates are below `r.next`, the new template's cell is `r.next`
     have oldcell : ∀ lt ∈ L, ∀ e ∈ lt.exps, ∀ i k, Node.find (r.insertOk t d ts).root e.2 = some i → i.cell = some k → k < r.next := by
       intro lt hlt e he i k hf hc
       rw [hold lt hlt e he] at hf
       by_cases hl : lt.exps.length > 1
-      · obtain ⟨k', hk', _, hcells⟩ := h.multi lt hlt hl
-        have := hcells e he i hf
-        rw [hc] at this; injection this with this; subst this; exact hk'
+      · obtain ⟨k', hc', hk', _⟩ := h.multi lt hlt hl e he i hf
+        rw [hc] at hc'; injection hc' with hc'; subst hc'; exact hk'
       · have := h.single lt hlt (by omega) e he i hf
         rw [hc] at this; cases this
     have newcell : ∀ e ∈ ts, ∀ i k, Node.find (r.insertOk t d ts).root e.2 = some i → i.cell = some k → k = r.next := by
